@@ -34,7 +34,8 @@ where
       let subscription = Arc::clone(&self.subscription);
       self.subject.set_on_unsubscribe(move |count| {
         if count == 0 {
-          if let Some(sbsc) = &*subscription.read().unwrap() {
+          let sbsc = subscription.write().unwrap().take();
+          if let Some(sbsc) = sbsc {
             sbsc.unsubscribe();
           }
         }
